@@ -509,6 +509,9 @@ def install():
 _tcache = {}
 
 
+_OTHER = {}
+
+
 def run_case(case, plan, sty='dtml', cls=None, cache_key=None):
     """execute the real code on a (generator-AST) case under a fault plan; returns the observation
     {result: [...], calls: [...], evs: [...], ninv, level, depth}"""
@@ -520,8 +523,18 @@ def run_case(case, plan, sty='dtml', cls=None, cache_key=None):
     src = pr(case['prog'], sty)
     cm, ck = cv(s['cm']), cv(s['ck'])
     t = (cls or HTML)(src, cm if cm else None, **ck)
-    for a, x in cv(s['tv']).items():
-        t._vars[a] = x
+    if (len(src) + len(s['tv'])) % 2:
+        # the template has been stored and restored (a state round trip) before it gets its variables
+        import pickle
+        t = pickle.loads(pickle.dumps(t))
+    other = _OTHER.get(cls or HTML)
+    if other is None:
+        import pickle
+        other = _OTHER[cls or HTML] = pickle.loads(pickle.dumps((cls or HTML)('another restored template')))
+    # ... and another restored template of the process has variables of its own
+    other.var(n='from-another-template', x='from-another-template', both='from-another-template')
+    if s['tv']:
+        t.var(**cv(s['tv']))
     clients = [conc(c, sty) for c in s['clients']]
     client = None if not clients else (clients[0] if len(clients) == 1 and not case.get('client_tuple') else tuple(clients))
     mapping = cv(s['map'])
